@@ -68,10 +68,10 @@ theorem hdev_store_adv {d : Dev σ} (h : HDev d) (ty : σ) (x : Hdrs σ) (hx : (
 theorem hinv_seeDevice {s : Tracker σ} (hi : Inv s) (h : HInv s) (m : Msg σ) : HInv (seeDevice ipv s m).1 := by
   have hp := hinv_purge hi h m.ts
   cases hu : m.udn with
-  | none => rw [seeDevice_none ipv s m (Or.inl hu)]; exact hp
+  | none => rw [seeDevice_none ipv s m (Or.inl hu)]; exact h
   | some u =>
     cases hl : m.loc with
-    | none => rw [seeDevice_none ipv s m (Or.inr hl)]; exact hp
+    | none => rw [seeDevice_none ipv s m (Or.inr hl)]; exact h
     | some loc =>
       rw [seeDevice_some ipv s m u loc hu hl]
       exact hinv_set hp u (sighted (refreshed (purge s m.ts) u (m.ts + m.maxAge)) loc (m.ts + m.maxAge) m.ts)
